@@ -30,9 +30,9 @@ def run(tier):
     b = bins()
     ev.configs = [n for n, _ in b]
     if tier == "quick":
-        plan = [("permute", 6000, 100), ("bytes_all_pairs", 60, 100), ("sequence", 3000, 60)]
+        plan = [("permute", 30000, 100), ("bytes_all_pairs", 200, 100), ("sequence", 15000, 60)]
     else:
-        plan = [("permute", 200000, 100), ("bytes_all_pairs", 1500, 100), ("sequence", 60000, 120)]
+        plan = [("permute", 400000, 100), ("bytes_all_pairs", 3000, 100), ("sequence", 150000, 120)]
     rcrun.run_rc(ev, b, plan, finding_key)
     ev.extra["pairs_enumerated_per_case"] = 861
     ev.exhaustive = False
